@@ -340,11 +340,32 @@ func init() {
 			}
 			return 0, ""
 		}
+		// labels with a reserved prefix that relabeling left in the final label set (scratch labels, the
+		// scrape interval label) are labels of the target like any other
+		resBase := c15T{"h:1", map[string]string{"k": "v", "m": "n", "__tmp_owner": "a", "__scrape_interval__": "15s"}}
+		resEdits := map[string]bool{}
+		for name, t := range map[string]c15T{
+			"reserved-label-value":    {"h:1", map[string]string{"k": "v", "m": "n", "__tmp_owner": "b", "__scrape_interval__": "15s"}},
+			"reserved-label-removed":  {"h:1", map[string]string{"k": "v", "m": "n", "__scrape_interval__": "15s"}},
+			"scrape-interval-label":   {"h:1", map[string]string{"k": "v", "m": "n", "__tmp_owner": "a", "__scrape_interval__": "30s"}},
+			"reserved-label-to-plain": {"h:1", map[string]string{"k": "v", "m": "n", "tmp_owner": "a", "__scrape_interval__": "15s"}},
+		} {
+			edits = append(edits, edit{name, baseJob, t})
+			resEdits[name] = true
+		}
+		sort.SliceStable(edits, func(a, b int) bool {
+			return !resEdits[edits[a].name] && resEdits[edits[b].name] || resEdits[edits[a].name] == resEdits[edits[b].name] && resEdits[edits[a].name] && edits[a].name < edits[b].name
+		})
 		h0, k0 := one(baseJob, baseT)
+		hr, kr := one(baseJob, resBase)
 		for _, e := range edits {
 			idx++
 			if !c.Mine(idx) {
 				continue
+			}
+			h0, k0 := h0, k0
+			if resEdits[e.name] {
+				h0, k0 = hr, kr
 			}
 			h1v, k1 := one(e.job, e.t)
 			r.States++
